@@ -1315,6 +1315,8 @@ class Interp:
             acc = None
             for x in parts:
                 acc = x if acc is None else acc + x
+            if isinstance(acc, SStr):
+                acc.parts = tuple(parts)  # the template structure stays visible to regex / format theories
             return acc
         return Fmt(parts)
 
